@@ -6,15 +6,23 @@ PROP_FILE = "Properties/C07.v"
 RULE = ("stream pn: cases = one ENCDEC pn largest_acked expected (or DEC width payload expected) each; non-trivial = pn - largest_acked "
         "within 3 of a width boundary (2^15, 2^23, 2^31) or expected within 3 of an edge of the decode window; "
         "stream journal: as C10 (non-trivial = >= 1 multi-frame packet, >= 1 trivial packet, >= 1 abandoned guard, acks out of order, "
-        "or the received-side rule); distinct by hash of the op list")
+        "or the received-side rule); stream txpn: cases = histories of tx::PacketWriter / tx::TrivialPacketWriter lives, SentRotateGuard lives, "
+        "clock ticks and dumps over the three spaces (non-trivial = within one space a packet of one writer follows a packet of the other "
+        "writer or an abandoned assembly); distinct by hash of the op list")
 TRUSTED_BASE = ["models coq/Model/Pn.v (u64 arithmetic with explicit overflow/panic outcomes, `&`/`|` as Z.ldiff/Z.lor) and "
-                "coq/Model/SentJournal.v transcribe number.rs / sent.rs; equality with the Rust is checked by streams `pn` and `journal`, not proved"]
+                "coq/Model/SentJournal.v transcribe number.rs / sent.rs, coq/Model/TxPn.v transcribes the two writers of qconnection/src/tx.rs with the "
+                "Package / RecordFrame path of qbase/src/packet/io.rs for a seven-frame vocabulary; equality with the Rust is checked by "
+                "streams `pn`, `journal` and `txpn`, not proved",
+                "stream txpn uses transparent packet protection (the AEAD records its nonce, header protection is the identity) so that the "
+                "packet-number field can be read back from the wire bytes"]
 MODELLED = ("qbase/src/packet/number.rs: PacketNumber::{encode, decode, size}, put_packet_number/take_pn_len as the [wire] map; "
             "qrecovery/src/journal/sent.rs: NewPacketGuard::{pn, record_frame, record_trivial, build_with_time, build_trivial, drop}, "
-            "SentRotateGuard calls; qrecovery/src/journal/rcvd.rs: decode_pn (in C10's model). qconnection/src/tx.rs is represented only by "
-            "the guard-discipline hypothesis (release-profile wrapping arithmetic is not modelled: debug profile only)")
-ASSUMPTIONS = ["guard discipline of qconnection/src/tx.rs: a packet that reaches encrypt_and_protect_packet recorded a frame or record_trivial "
-               "(Packages::dump returns Ok only when bytes were written, every written frame goes through record_frame)",
+            "SentRotateGuard calls; qrecovery/src/journal/rcvd.rs: decode_pn (in C10's model); qconnection/src/tx.rs: PacketWriter and "
+            "TrivialPacketWriter {new_long, new_short, RecordFrame::record_frame, encrypt_and_protect_packet, drop} with the fit test and "
+            "debug assertions of the frame Package impls (release-profile wrapping arithmetic is not modelled: debug profile only)")
+ASSUMPTIONS = ["c07_unique: guard discipline of the journal's users: a packet that reaches encrypt_and_protect_packet recorded a frame or "
+               "record_trivial; c07_tx_unique derives it for the two writers of qconnection/src/tx.rs as modelled (callers finish the packet "
+               "iff assemble_packet returned Ok, as every call site does)",
                "guards are serialised by the journal's mutex (each guard life is one atomic step of the history)",
                "the receiver's expected number lies between the sender's largest_acked and the packet itself (property premise)"]
 
@@ -25,7 +33,10 @@ MANIFEST = {
             "every expected in [largest_acked, pn], PacketNumber::encode does not panic and decoding what is written on the wire gives pn "
             "(also for delayed packets within 2^15), and so does decoding the in-memory value returned by encode (full strength since the "
             "fix of F31, U24 payload reduced to 24 bits); the bound 2^31 is exact. Models tied to the Rust by streams `pn` (exhaustive around width boundaries, "
-            "random triples up to 2^62, arbitrary decode inputs) and `journal`.",
+            "random triples up to 2^62, arbitrary decode inputs), `journal`, and `txpn`: the real tx::PacketWriter and "
+            "tx::TrivialPacketWriter interleaved over one ArcSentJournal per space (exhaustive short move sequences per packet type, buffer-size "
+            "sweeps, random histories), for which c07_tx_discipline / c07_tx_unique prove the discipline and the strict increase without hypothesis; "
+            "the oracle reads the packet number back from the wire bytes and the AEAD nonce.",
     "note": "Trusted: Coq kernel, extraction, OCaml driver, Rust harness, Python generators/oracle. The tx.rs discipline is a hypothesis, "
             "not derived from the Package implementations. Nonce uniqueness follows from number uniqueness only per key; key handling is C06.",
     "technique": "Coq proof (lia over div/mod for the codec, bit lemma lor/ldiff = div/mod, monotonicity invariant over event histories) "
@@ -179,11 +190,348 @@ def journal_oracle(case, obs):
     return J.oracle(case, obs, want=("C07",))
 
 
+
+# --------------------------------------------------------------------------------------
+# stream txpn: the real packet writers of qconnection/src/tx.rs over one sent journal per space
+# --------------------------------------------------------------------------------------
+TX_PANIC = -77
+# frame kinds of the harness vocabulary
+K_MAXDATA, K_PING, K_PADDING, K_CLOSE, K_PUNCH, K_ACK, K_CRYPTO = 1, 2, 3, 4, 5, 6, 7
+TY_INITIAL, TY_HANDSHAKE, TY_0RTT, TY_1RTT = 0, 1, 2, 3
+TX_HDR = {0: 26, 1: 25, 2: 25, 3: 9}
+
+
+def tx_ty(ty):
+    return ty if ty in (0, 1, 2) else 3
+
+
+def tx_space(ty):
+    return min(tx_ty(ty), 2)
+
+
+def tx_allowed(ty, k):
+    """RFC 9000 table 3 (+ the punch extension: application packets only): may frame k travel in packet type ty"""
+    ty = tx_ty(ty)
+    if k in (K_PING, K_PADDING, K_CLOSE):
+        return True
+    if k in (K_MAXDATA, K_PUNCH):
+        return ty in (TY_0RTT, TY_1RTT)
+    return ty != TY_0RTT                      # ACK, CRYPTO
+
+
+def tx_non_eliciting(k):
+    return k in (K_PADDING, K_CLOSE, K_PUNCH, K_ACK)
+
+
+def tx_frames(op):
+    tag, a = op
+    fr = a[5:] if tag == 1 else a[3:]
+    return [(fr[i], fr[i + 1]) for i in range(0, len(fr) - 1, 2)]
+
+
+def tx_kind(k):
+    return k if 1 <= k <= 6 else K_CRYPTO
+
+
+def tx_legal(op):
+    """the writer is used as its callers use it: every frame may travel in the packet type, and the trivial
+    writer is only given frames that are not ack-eliciting (anything else is a debug assertion of the code)"""
+    tag, a = op
+    for k, _ in tx_frames(op):
+        k = tx_kind(k)
+        if not tx_allowed(a[0], k):
+            return False
+        if tag == 2 and not tx_non_eliciting(k):
+            return False
+    return True
+
+
+def tx_offered(op):
+    """frames of the op that the journal has to feed back (reliable in the space of the packet)"""
+    sp = tx_space(op[1][0])
+    out = []
+    for k, v in tx_frames(op):
+        k = tx_kind(k)
+        if k == K_CRYPTO or (k == K_MAXDATA and sp == 2):
+            out.append(v)
+    return out
+
+
+def is_subseq(xs, ys):
+    it = iter(ys)
+    return all(any(x == y for y in it) for x in xs)
+
+
+def txpn_oracle(case, obs):
+    """C07 on what the real writers put on the wire, per packet-number space: strictly increasing packet numbers
+    in the order of sending, the AEAD nonce is that number, the truncated field on the wire decodes to it for every
+    receiver position the property allows, every number that left is booked in the journal (the next number handed
+    out is larger), abandoned assemblies send nothing, and no panic under legal use."""
+    if len(obs) != len(case.ops):
+        return "length: %d observations for %d ops (%s)" % (len(obs), len(case.ops), obs[-1] if obs else "")
+    sent = {0: [], 1: [], 2: []}          # numbers that left, in order
+    offered = {0: {}, 1: {}, 2: {}}       # pn -> reliable frames offered to that packet
+    nxt = {0: 0, 1: 0, 2: 0}
+    la = {0: 0, 1: 0, 2: 0}
+    dead = {0: False, 1: False, 2: False}  # a panic under ILLEGAL use poisons the journal: nothing is required afterwards
+    for k, ((tag, a), line) in enumerate(zip(case.ops, obs)):
+        if line.startswith("!"):
+            return "abnormal: op %d -> %s" % (k, line)
+        v = ints(line)
+        if tag == 0:
+            continue
+        sp = tx_space(a[0]) if tag in (1, 2) else (a[0] if a[0] in (0, 1) else 2)
+        if dead[sp]:
+            continue
+        if v == [TX_PANIC]:
+            if tag in (1, 2) and not tx_legal((tag, a)):
+                dead[sp] = True
+                continue
+            if tag in (1, 2) and a[2] == 0:
+                # the caller did not add PadTo20: encrypt_and_protect_packet asserts that the packet can be sampled.
+                # No packet left; the guard was built before, so the number may be consumed (journal not poisoned)
+                nxt[sp] = None
+                continue
+            return "panic: op %d (%s) panicked although the writer was used legally" % (k, {1: "PacketWriter", 2: "TrivialPacketWriter", 3: "SentRotateGuard", 4: "dump"}.get(tag, tag))
+        if tag in (1, 2):
+            who = "PacketWriter" if tag == 1 else "TrivialPacketWriter"
+            if v[0] == 0:
+                _, pn, w, trunc, nonce, n2 = v
+                if sent[sp] and pn <= sent[sp][-1]:
+                    return ("reuse: op %d %s sent packet number %d in space %d after %s: the numbers that left are not strictly increasing"
+                            % (k, who, pn, sp, sent[sp]))
+                if nonce != pn:
+                    return "nonce: op %d %s protected packet %d with nonce %d" % (k, who, pn, nonce)
+                if nxt[sp] is not None and pn < nxt[sp]:
+                    return "stale: op %d %s used packet number %d, the journal had already moved on to %d" % (k, who, pn, nxt[sp])
+                if (w, trunc) != J.rfc_encode(pn, la[sp]):
+                    return "encwidth: op %d packet %d (largest_acked %d) written as (%d, %d), expected %s" % (k, pn, la[sp], w, trunc, J.rfc_encode(pn, la[sp]))
+                exps = {pn, sent[sp][-1] + 1 if sent[sp] else 0}
+                if la[sp] + 1 <= pn:
+                    exps.add(la[sp] + 1)
+                for e in sorted(exps):
+                    if J.rfc_decode(w, trunc, e) != pn:
+                        return "decode: op %d packet %d written as (%d, %d) decodes to %d at expected %d" % (k, pn, w, trunc, J.rfc_decode(w, trunc, e), e)
+                if n2 <= pn:
+                    return ("unrecorded: op %d %s sent packet number %d but the journal did not book it: the next number handed out is %d"
+                            % (k, who, pn, n2))
+                sent[sp].append(pn)
+                offered[sp][pn] = tx_offered((tag, a))
+                nxt[sp] = n2
+            elif v[0] in (1, 2):
+                n2 = v[-1]
+                if (nxt[sp] is not None and n2 < nxt[sp]) or (sent[sp] and n2 <= sent[sp][-1]):
+                    return "rewind: op %d abandoned assembly left the next number at %d (was %d, sent %s)" % (k, n2, nxt[sp], sent[sp][-3:])
+                nxt[sp] = n2
+            else:
+                return "shape: op %d -> %s" % (k, line)
+        elif tag == 3:
+            i = 0
+            subs = [(a[j], a[j + 1]) for j in range(1, len(a) - 1, 2)]
+            for kk, p in subs:
+                if i >= len(v):
+                    return "shape: op %d rotate output too short: %s" % (k, line)
+                if kk in (0, 1, 2):
+                    n = v[i]
+                    got = v[i + 1:i + 1 + n]
+                    i += 1 + n
+                    if kk in (0, 1):
+                        want = offered[sp].get(p, [])
+                        if not is_subseq(got, want):
+                            return ("feedback: op %d %s(%d) in space %d returned frames %s, packet %d carried %s"
+                                    % (k, "on_packet_acked" if kk == 0 else "may_loss_packet", p, sp, got, p, want))
+                        if kk == 0:
+                            offered[sp][p] = []
+                else:
+                    ok = v[i] == 0
+                    i += 1
+                    if ok and nxt[sp] is not None and p >= nxt[sp]:
+                        return "ackunsent: op %d update_largest(%d) accepted, the largest packet sent in space %d is %s" % (k, p, sp, sent[sp][-1:] or None)
+                    if ok:
+                        la[sp] = max(la[sp], p)
+        elif tag == 4:
+            if len(v) < 4:
+                return "shape: op %d -> %s" % (k, line)
+            if nxt[sp] is not None and v[0] + v[1] != nxt[sp]:
+                return "dumpnext: op %d journal of space %d holds numbers up to %d, the next number handed out was %d" % (k, sp, v[0] + v[1], nxt[sp])
+            if sent[sp] and v[0] + v[1] <= sent[sp][-1]:
+                return "unrecorded: op %d packet %d left but the journal of space %d ends at %d" % (k, sent[sp][-1], sp, v[0] + v[1])
+    return None
+
+
+def tx_reg(ty, bufsz, frames, pad=1, retran=100, expire=300):
+    return (1, [ty, bufsz, pad, retran, expire] + [x for f in frames for x in f])
+
+
+def tx_triv(ty, bufsz, frames, pad=1):
+    return (2, [ty, bufsz, pad] + [x for f in frames for x in f])
+
+
+def tx_alphabet(ty, fid):
+    """the moves of a live space: regular packets (reliable / ack-only / ping), an abandoned assembly, the second
+    writer (CONNECTION_CLOSE of the closing state, punch packets in the Data space), acknowledgement of the latest"""
+    rel = (K_MAXDATA, fid) if tx_space(ty) == 2 else (K_CRYPTO, fid)
+    moves = [("R", tx_reg(ty, 1200, [rel])), ("P", tx_reg(ty, 1200, [(K_PING, 0)])), ("A", tx_reg(ty, 1200, [])),
+             ("C", tx_triv(ty, 1200, [(K_CLOSE, 0)]))]
+    if tx_ty(ty) != TY_0RTT:
+        moves.append(("K", tx_reg(ty, 1200, [(K_ACK, 0)])))
+    if tx_space(ty) == 2:
+        moves.append(("H", tx_triv(ty, 1200, [(K_PUNCH, 0)])))
+    return moves
+
+
+def txpn_gen(rng, tier):
+    cases = []
+    # 1. exhaustive small scope: every sequence of <= 4 moves of one space (<= 3 for the long-header spaces),
+    #    followed by a regular packet and a dump
+    import itertools
+    for ty, depth in ((TY_1RTT, 4), (TY_0RTT, 3), (TY_INITIAL, 3), (TY_HANDSHAKE, 3)):
+        moves = tx_alphabet(ty, 7)
+        for n in range(1, depth + 1):
+            for seq in itertools.product(range(len(moves)), repeat=n):
+                ops = []
+                for i, m in enumerate(seq):
+                    tag, a = moves[m][1]
+                    a = list(a)
+                    if moves[m][0] == "R":
+                        a[-1] = 10 + i
+                    ops.append((tag, a))
+                ops.append(tx_reg(ty, 1200, [(K_PING, 0)]))
+                ops.append((4, [tx_space(ty)]))
+                cases.append(Case("x%d_%s" % (ty, "".join(moves[m][0] for m in seq)), ops))
+    # 2. buffer-size sweep: the writer cannot be created / nothing fits / only some frames fit
+    for ty in (0, 1, 2, 3):
+        rel = (K_MAXDATA, 70000) if ty >= 2 else (K_CRYPTO, 70000)
+        for tag in (1, 2):
+            for d in range(-2, 12):
+                bufsz = TX_HDR[ty] + 18 + d
+                fr = [rel, (K_PING, 0)] if tag == 1 else [(K_PUNCH, 0) if ty >= 2 else (K_ACK, 0), (K_CLOSE, 0)]
+                mk = (lambda b, f: tx_reg(ty, b, f)) if tag == 1 else (lambda b, f: tx_triv(ty, b, f))
+                ops = [tx_reg(ty, 1200, [(K_PING, 0)]), mk(bufsz, fr), mk(bufsz, fr[::-1]), tx_reg(ty, 1200, [rel]), mk(bufsz, fr[:1]),
+                       tx_triv(ty, 1200, [(K_CLOSE, 0)]), (4, [tx_space(ty)])]
+                cases.append(Case("b%d_%d_%d" % (ty, tag, d), ops))
+    # 3. random histories over the three spaces: both writers, abandoned assemblies, acknowledgements, loss, time
+    n_rand = 1500 if tier == "quick" else 60000
+    for ci in range(n_rand):
+        ops = []
+        sent = {0: [], 1: [], 2: []}
+        cnt = {0: 0, 1: 0, 2: 0}
+        fid = 1000
+        illegal = rng.random() < 0.04
+        long_run = rng.random() < 0.05
+        for _ in range(rng.randint(3, 60 if long_run else 14)):
+            r = rng.random()
+            ty = rng.choice([3, 3, 3, 2, 1, 0]) if rng.random() < 0.8 else rng.choice([0, 1, 2, 3])
+            sp = tx_space(ty)
+            if r < 0.40:
+                nf = rng.choice([0, 1, 1, 1, 2, 3])
+                fr = []
+                for _f in range(nf):
+                    kinds = [K_MAXDATA, K_MAXDATA, K_PING, K_PADDING, K_ACK, K_CRYPTO, K_CLOSE] if sp == 2 else [K_CRYPTO, K_CRYPTO, K_PING, K_PADDING, K_ACK, K_CLOSE]
+                    kd = rng.choice(kinds)
+                    if not illegal and not tx_allowed(ty, kd):
+                        kd = K_PING
+                    fid += 1
+                    fr.append((kd, rng.choice([fid, fid, 70000 + fid, 2**31 + fid])))
+                bufsz = 1200 if rng.random() < 0.75 else rng.randint(0, TX_HDR[ty] + 40)
+                ops.append(tx_reg(ty, bufsz, fr, pad=rng.randint(0, 1), retran=rng.choice([5, 100]), expire=rng.choice([20, 300])))
+                if bufsz == 1200 and fr:
+                    sent[sp].append(cnt[sp]); cnt[sp] += 1
+            elif r < 0.62:
+                kinds = [K_CLOSE, K_PUNCH, K_PUNCH, K_PADDING, K_ACK] if sp == 2 else [K_CLOSE, K_CLOSE, K_PADDING, K_ACK]
+                fr = []
+                for _f in range(rng.choice([1, 1, 1, 2, 0])):
+                    kd = rng.choice(kinds)
+                    if illegal and rng.random() < 0.3:
+                        kd = rng.choice([K_PING, K_MAXDATA, K_CRYPTO])
+                    elif not tx_allowed(ty, kd):
+                        kd = K_CLOSE
+                    fr.append((kd, 5))
+                bufsz = 1200 if rng.random() < 0.8 else rng.randint(0, TX_HDR[ty] + 40)
+                ops.append(tx_triv(ty, bufsz, fr, pad=rng.randint(0, 1)))
+                if bufsz == 1200 and fr:
+                    sent[sp].append(cnt[sp]); cnt[sp] += 1
+            elif r < 0.84:
+                sub = []
+                for _s in range(rng.randint(1, 3)):
+                    p = rng.choice(sent[sp]) if sent[sp] and rng.random() < 0.85 else rng.randint(0, cnt[sp] + 2)
+                    kk = rng.choice([0, 0, 1, 2, 3, 3])
+                    if kk == 0:
+                        sub += [3, p, 0, p]
+                    else:
+                        sub += [kk, p]
+                ops.append((3, [sp] + sub))
+            elif r < 0.93:
+                ops.append((0, [rng.choice([1, 10, 50, 400])]))
+            else:
+                ops.append((4, [sp]))
+        for sp in (0, 1, 2):
+            if cnt[sp]:
+                ops.append((4, [sp]))
+        cases.append(Case("r%d" % ci, ops))
+    return cases
+
+
+def txpn_nontrivial(case):
+    """both writers used in one space with a packet from the other writer (or an abandoned assembly) in between"""
+    seen = {}
+    for tag, a in case.ops:
+        if tag in (1, 2):
+            seen.setdefault(tx_space(a[0]), []).append(tag if tx_frames((tag, a)) else 0)
+    for seq in seen.values():
+        s = "".join(str(x) for x in seq)
+        if ("21" in s or "22" in s or "201" in s) and "1" in s:
+            return True
+        if "01" in s or "02" in s:
+            return True
+    return False
+
+
+def txpn_hist(case):
+    lab = []
+    for tag, a in case.ops:
+        if tag in (1, 2):
+            w = "reg" if tag == 1 else "triv"
+            fr = tx_frames((tag, a))
+            lab.append("op:%s" % w)
+            lab.append("ty:%d" % tx_ty(a[0]))
+            lab.append("%s:nframes=%d" % (w, min(len(fr), 3)))
+            lab.append("buf:%s" % ("full" if a[1] >= 1200 else "<hdr+20" if a[1] < TX_HDR[tx_ty(a[0])] + 20 else "tight"))
+            for k, _ in fr:
+                lab.append("kind:%d" % tx_kind(k))
+            if not tx_legal((tag, a)):
+                lab.append("illegal-use")
+        else:
+            lab.append("op:%s" % {0: "tick", 3: "rotate", 4: "dump"}.get(tag, "?"))
+    return lab
+
+
+def txpn_mutate(rng, case, j):
+    ops = [(t, list(a)) for t, a in case.ops]
+    i = rng.randrange(len(ops))
+    r = rng.random()
+    if r < 0.4:
+        ops.insert(i, rng.choice([tx_triv(3, 1200, [(K_PUNCH, 0)]), tx_triv(rng.choice([0, 1, 2, 3]), 1200, [(K_CLOSE, 0)]),
+                                  tx_reg(3, 1200, [(K_MAXDATA, 99)]), tx_reg(rng.choice([0, 1, 3]), 1200, [(K_CRYPTO, 98)]), tx_reg(3, 20, [(K_PING, 0)])]))
+    elif r < 0.6 and len(ops) > 1:
+        ops.pop(i)
+    elif r < 0.8:
+        ops.insert(i, ops[i])
+    else:
+        t, a = ops[i]
+        if t in (1, 2):
+            a[1] = max(0, a[1] + rng.choice([-1200, -1150, -3, -1, 1, 3]))
+    return Case("mu%d" % j, ops)
+
+
 STREAMS = [
     {"name": "pn", "pkg": "hb", "bin": "impl_pn",
      "gen": pn_gen, "oracle": pn_oracle, "nontrivial": pn_nontrivial, "hist": pn_hist, "mutate": pn_mutate,
      "profiles": ("debug",), "profiles_thorough": ("debug",), "rule": RULE},
     {"name": "journal", "pkg": "hr", "bin": "impl_journal",
      "gen": J.gen, "oracle": journal_oracle, "nontrivial": J.nontrivial, "hist": J.hist, "mutate": J.mutate,
+     "profiles": ("debug",), "profiles_thorough": ("debug",), "rule": RULE},
+    {"name": "txpn", "pkg": "hq", "bin": "impl_txpn",
+     "gen": txpn_gen, "oracle": txpn_oracle, "nontrivial": txpn_nontrivial, "hist": txpn_hist, "mutate": txpn_mutate,
      "profiles": ("debug",), "profiles_thorough": ("debug",), "rule": RULE},
 ]
